@@ -82,7 +82,8 @@ func observe(src string) (o obs) {
 			o.TimedOut = true
 		}
 	}()
-	vos := ros.NewVirtualOS(ctx, ros.WithStdout(stdout))
+	vos := ros.NewVirtualOS(ctx, ros.WithStdout(stdout), ros.WithArgs([]string{"prog", "-a", "b"}),
+		ros.WithEnvironment(map[string]string{"ALPHA": "1", "BETA": "2", "GAMMA": "3", "DELTA": "4", "EPS": "5", "ZETA": "6", "ETA": "7"}))
 	cfg := risor.NewConfig(risor.WithOS(vos), risor.WithGlobal("tick", tick))
 	prog, err := parser.Parse(ctx, src)
 	if err != nil {
@@ -242,6 +243,7 @@ func orderProgram(r *mon.Rand) (src string, tags []string) {
 		"g := func(k) { return m[k] }; print(keys(m).map(g))", "print(keys(m).filter(func(k) { return k > \"a\" }))", "each := []; keys(m).each(func(k) { each.append(k) }); print(each)",
 		"print(sorted(m, func(a, b) { return len(a) < len(b) }))", "print(sorted(s, func(a, b) { tick(a); return false }))", "print(sorted(m, func(a, b) { tick(b); return m[a] < m[b] }))",
 		"print(sorted(keys(m), func(a, b) { return false }), sorted(s, func(a, b) { return type(a) < type(b) }))", "print(sorted(m.values(), func(a, b) { return a % 3 < b % 3 }))",
+		"print(os.environ())", "print(os.environ()[0], len(os.environ()), os.getenv(\"GAMMA\"), os.args())", "for i, e := range os.environ() { tick(e) }",
 		"print(s.union(set(m.values())))", "print(sorted(m.values()))", "print(string(keys(m)), sprintf(\"%v %v\", m, s))", "print(m.get(\"a\", 0), m.pop(\"b\", -1), m.setdefault(\"q\", tick(200)), m)",
 	}
 	n := 3 + r.Intn(8)
